@@ -52,6 +52,9 @@ type FunctionCall struct {
 func (fv *FunctionValidator) extractFunctionCalls(expression string) []FunctionCall {
 	var functionCalls []FunctionCall
 
+	// Text inside '...', "..." and `...` is literal / quoted-identifier content, never a call.
+	expression = maskQuoted(expression)
+
 	// Use regex to match function call patterns: identifier(
 	funcPattern := regexp.MustCompile(`([a-zA-Z_][a-zA-Z0-9_]*)\s*\(`)
 	matches := funcPattern.FindAllStringSubmatchIndex(expression, -1)
@@ -102,4 +105,26 @@ func (fv *FunctionValidator) isKeyword(word string) bool {
 		}
 	}
 	return false
+}
+
+// maskQuoted blanks the content of '...', "..." and `...` (the lexer's string and quoted-identifier
+// tokens: they end at the next occurrence of the opening quote character) so that text inside them
+// is never read as a function call. Byte positions are preserved.
+func maskQuoted(s string) string {
+	b := []byte(s)
+	var q byte
+	for i, c := range b {
+		if q == 0 {
+			if c == '\'' || c == '"' || c == '`' {
+				q = c
+			}
+			continue
+		}
+		if c == q {
+			q = 0
+			continue
+		}
+		b[i] = ' '
+	}
+	return string(b)
 }
